@@ -397,6 +397,8 @@ func (c *Ctx) reflectMapIndex(rule string, fn *ssa.Function, call *ssa.Call, n i
 		}
 		if okConv {
 			c.R.Ok(rule, k2, pos, "reflect.Value.MapIndex key", "the key is converted to the map's own key type under a CanConvert fact")
+		} else if c.ownReflectedMap(m) && c.isChildUnserializeResult(k) {
+			c.R.Except(rule, k2, pos, "reflect.Value.MapIndex key", "E-REFLECTEDTYPE: the map was made from the schema's own ReflectedType() and the key is what the key schema's Unserialize returned; that such results have the reflected type is the typed-API contract decided under C01 (R-DYNTYPE)")
 		} else {
 			c.R.Bad(rule, k2, pos, "reflect.Value.MapIndex with a key that may not be assignable to the map's key type",
 				"the key is neither a key of this map nor converted to M.Type().Key() under CanConvert; for a typed map with another key type (e.g. map[int]any) MapIndex panics instead of the value being rejected")
@@ -528,4 +530,38 @@ func (c *Ctx) ruleValueString(rule string, fns map[*ssa.Function]bool) {
 		}
 	}
 	c.R.Note("%s: %d calls of reflect.Value.String in scope", rule, n)
+}
+
+// ownReflectedMap: the map Value was made by reflect.MakeMapWithSize / MakeMap from the receiver's own ReflectedType().
+func (c *Ctx) ownReflectedMap(m ssa.Value) bool {
+	mk, ok := m.(*ssa.Call)
+	if !ok {
+		return false
+	}
+	n := core.StaticCalleeName(&mk.Call)
+	if n != "reflect.MakeMapWithSize" && n != "reflect.MakeMap" {
+		return false
+	}
+	t, ok := mk.Call.Args[0].(*ssa.Call)
+	if !ok {
+		return false
+	}
+	if t.Call.IsInvoke() {
+		return t.Call.Method.Name() == "ReflectedType"
+	}
+	return strings.HasSuffix(core.StaticCalleeName(&t.Call), ".ReflectedType")
+}
+
+// isChildUnserializeResult: reflect.ValueOf(<result #0 of an invoke of Unserialize on a child-schema field>).
+func (c *Ctx) isChildUnserializeResult(k ssa.Value) bool {
+	x := valueOfArg(k)
+	if x == nil {
+		return false
+	}
+	ex, ok := x.(*ssa.Extract)
+	if !ok || ex.Index != 0 {
+		return false
+	}
+	call, ok := ex.Tuple.(*ssa.Call)
+	return ok && call.Call.IsInvoke() && call.Call.Method.Name() == "Unserialize"
 }
